@@ -141,6 +141,10 @@ def eng_cli(pid, tier, wd, known, replay=None):
                     open(p, "w").write(STALE % n)
                 elif st == "garbage":
                     open(p, "w").write(GARBAGE)
+                elif st == "crlf" and c0 is not None:
+                    open(p, "wb").write(c0.replace(b"\n", b"\r\n"))      # the expected output with other line endings
+                elif st == "trailing" and c0 is not None:
+                    open(p, "wb").write(c0 + b"\n")
                 if os.path.exists(p):
                     fs0[n] = sha(open(p, "rb").read())
             before = snapshot(root)
@@ -209,6 +213,12 @@ def eng_cli(pid, tier, wd, known, replay=None):
     cases.append(("diff", ["ok1", "bad"], (), {"ok1": "absent"}))
     cases.append(("diff", ["ok1", "ok2"], (), {"ok1": "equal", "ok2": "stale"}))
     cases.append(("diff", ["ok1", "ok2"], (), {"ok1": "equal", "ok2": "equal"}))
+    # near-misses of the expected output: other line endings, one more newline
+    for near in ("crlf", "trailing"):
+        cases.append(("diff", ["ok1"], (), {"ok1": near}))
+        cases.append(("diff", ["ok1", "ok2"], (), {"ok1": "equal", "ok2": near}))
+        cases.append(("gen", ["ok1"], (), {"ok1": near}))
+        cases.append(("diff", ["ok2"], ("-header_file=HDR",), {"ok2": near}))
     for (cmd, pk, o, pr) in cases:
         d, why = check_case(cmd, pk, o, pr)
         if why:
@@ -255,8 +265,9 @@ def eng_cli(pid, tier, wd, known, replay=None):
     if pid in ("C18", "C17"):
         refc = {}
         for v, files in VARIANTS.items():
-            rc0, c0 = reference(wd, files, "h")
-            refc[v] = c0 if rc0 == 0 else None
+            for tg in ((), ("-tags=dev",)):
+                rc0, c0 = reference(wd, files, "h", tg)
+                refc[(v, tg)] = c0 if rc0 == 0 else None
         ops_all = [("switch", v) for v in VARIANTS] + [("gen",), ("gen",), ("diff",), ("check",), ("delete",), ("replace", "stale"), ("replace", "garbage"), ("replace", "noncomp")]
         hists = []
         n_h = 12 if tier == "quick" else 80
@@ -269,6 +280,7 @@ def eng_cli(pid, tier, wd, known, replay=None):
         rep = {"stale": STALE % "h", "garbage": GARBAGE, "noncomp": NONCOMP % "h"}
         for hi, hist in enumerate(hists):
             root = scratch("hist")
+            tg = ("-tags=dev",) if hi % 3 == 1 else ()      # every third history runs all its commands under -tags
             try:
                 var = 1
                 write_ws(root, {"h": VARIANTS[1]})
@@ -282,7 +294,7 @@ def eng_cli(pid, tier, wd, known, replay=None):
                         for fn, t in VARIANTS[var].items():
                             open(os.path.join(root, "h", fn), "w").write(t)
                     elif op[0] in ("gen", "diff", "check"):
-                        ex, so, se = wire(root, [op[0], "./h"])
+                        ex, so, se = wire(root, [op[0]] + list(tg) + ["./h"])
                     elif op[0] == "delete":
                         if os.path.exists(outp):
                             os.remove(outp)
@@ -293,18 +305,18 @@ def eng_cli(pid, tier, wd, known, replay=None):
                     # C18 wording, model-free: after a successful gen the file is what a fresh checkout gets
                     why = []
                     if op[0] == "gen":
-                        want = refc[var]
+                        want = refc[(var, tg)]
                         if want is not None and (ex != 0 or cur != want):
                             why.append("after history %s a successful gen must leave the fresh-checkout file (exit %d, same=%s)" % ([list(o) for o in hist[:len(trace)]], ex, cur == want))
                         if want is None and ex == 0:
                             why.append("gen succeeded on a rejected variant")
                     if op[0] == "diff":
-                        want = refc[var]
+                        want = refc[(var, tg)]
                         wantex = 2 if want is None else (0 if cur == want else 1)
                         if ex != wantex:
                             why.append("diff exit %d, expected %d after %s" % (ex, wantex, [list(o) for o in hist[:len(trace)]]))
                     if why:
-                        viol.append(({"property": pid, "kind": "failing-input", "broken": "C18 oracle on the wire binary", "input": {"history": [list(o) for o in hist[:len(trace)]]},
+                        viol.append(({"property": pid, "kind": "failing-input", "broken": "C18 oracle on the wire binary", "input": {"history": [list(o) for o in hist[:len(trace)]], "options": list(tg)},
                                       "impl": trace, "oracle": why, "seed": seed()}, True))
                         break
                 if hi == 0:
